@@ -98,6 +98,13 @@ type intervalEnv struct {
 	// callDepth counts nested callee summaries (expression depth restarts in
 	// each callee so that a cached summary never depends on the caller).
 	callDepth int
+	// assume holds induction hypotheses for loop phis while their back edges
+	// are being evaluated.
+	assume   map[ssa.Value]ival
+	hitCycle bool
+	// trusted reports conversions that the residual table accepts with a
+	// reason; downstream values may rely on them being in range.
+	trusted func(cv *ssa.Convert) bool
 }
 
 func newIntervalEnv(p *load.Program, fn *ssa.Function) *intervalEnv {
@@ -190,7 +197,14 @@ func (e *intervalEnv) rangeOf(v ssa.Value, facts ssau.FactSet, seen map[ssa.Valu
 	if !ok {
 		return ival{}, false
 	}
-	if depth > 12 || seen[v] {
+	if seen[v] {
+		e.hitCycle = true
+		if h, ok := e.assume[v]; ok {
+			return e.refine(v, h, facts), true
+		}
+		return e.refine(v, tr, facts), true
+	}
+	if depth > 12 {
 		return e.refine(v, tr, facts), true
 	}
 	r := tr
@@ -208,6 +222,11 @@ func (e *intervalEnv) rangeOf(v ssa.Value, facts ssau.FactSet, seen map[ssa.Valu
 		if xr, ok := e.rangeOf(x.X, facts, seen, depth+1); ok {
 			if xr.within(tr) {
 				r = xr
+			} else if e.trusted != nil && e.trusted(x) {
+				if m := xr.meet(tr); !m.empty() {
+					r = m
+					e.note("relies on a conversion accepted by the residual table")
+				}
 			}
 		}
 	case *ssa.ChangeType:
@@ -222,22 +241,94 @@ func (e *intervalEnv) rangeOf(v ssa.Value, facts ssau.FactSet, seen map[ssa.Valu
 			break
 		}
 		seen[v] = true
+		type edgeRes struct {
+			r      ival
+			cyclic bool
+		}
+		eval := func() ([]edgeRes, bool) {
+			var out []edgeRes
+			for i, ed := range x.Edges {
+				saved := e.hitCycle
+				e.hitCycle = false
+				er, ok := e.rangeOf(ed, e.ff.OnPhiEdge(x, i), seen, depth+1)
+				cyc := e.hitCycle
+				e.hitCycle = saved || cyc
+				if !ok {
+					return nil, false
+				}
+				out = append(out, edgeRes{er, cyc})
+			}
+			return out, true
+		}
+		joinAll := func(rs []edgeRes) *ival {
+			var acc *ival
+			for _, er := range rs {
+				if er.r.empty() {
+					continue // infeasible edge
+				}
+				if acc == nil {
+					c := er.r
+					acc = &c
+				} else {
+					j := acc.join(er.r)
+					acc = &j
+				}
+			}
+			return acc
+		}
+		rs, okEval := eval()
 		var acc *ival
-		for i, ed := range x.Edges {
-			er, ok := e.rangeOf(ed, e.ff.OnPhiEdge(x, i), seen, depth+1)
-			if !ok {
-				acc = nil
-				break
+		if okEval {
+			acc = joinAll(rs)
+			// induction on a loop-carried value: if the edges that do not go
+			// through the phi itself give [L,U'] and, assuming the phi lies in
+			// [L, max], every cyclic edge stays in [L, max], then L is a lower
+			// bound of the phi (same for an upper bound).
+			var base *ival
+			anyCyclic := false
+			for _, er := range rs {
+				if er.cyclic {
+					anyCyclic = true
+					continue
+				}
+				if er.r.empty() {
+					continue
+				}
+				if base == nil {
+					c := er.r
+					base = &c
+				} else {
+					j := base.join(er.r)
+					base = &j
+				}
 			}
-			if er.empty() {
-				continue // infeasible edge
-			}
-			if acc == nil {
-				c := er
-				acc = &c
-			} else {
-				j := acc.join(er)
-				acc = &j
+			if anyCyclic && base != nil && acc != nil && e.assume[v].lo == nil {
+				for _, hyp := range []ival{{base.lo, base.hi}, {base.lo, tr.hi}, {tr.lo, base.hi}} {
+					if !hyp.within(tr) || acc.within(hyp) {
+						continue
+					}
+					if e.assume == nil {
+						e.assume = map[ssa.Value]ival{}
+					}
+					e.assume[v] = hyp
+					rs2, ok2 := eval()
+					delete(e.assume, v)
+					if !ok2 {
+						continue
+					}
+					holds := true
+					for _, er := range rs2 {
+						if !er.r.empty() && !er.r.within(hyp) {
+							holds = false
+						}
+					}
+					if holds {
+						m := acc.meet(hyp)
+						acc = &m
+						e.note("loop invariant by induction")
+						break
+					}
+				}
 			}
 		}
 		delete(seen, v)
@@ -278,7 +369,7 @@ func (e *intervalEnv) rangeOf(v ssa.Value, facts ssau.FactSet, seen map[ssa.Valu
 			if cr, ok := extractRange(c, x.Index); ok {
 				r = cr.meet(tr)
 				e.note("result range of " + calleeLabel(c))
-			} else if cr, ok := e.moduleRetRange(c, x.Index, seen, depth); ok {
+			} else if cr, ok := e.moduleRetRangeCond(c, x.Index, facts); ok {
 				r = cr.meet(tr)
 				e.note("return range of " + calleeLabel(c))
 			}
@@ -479,6 +570,14 @@ func extractRange(c *ssa.Call, idx int) (ival, bool) {
 	case pkg == "io" && (f.Name() == "ReadFull" || f.Name() == "ReadAtLeast") && idx == 0,
 		pkg == "bufio" && recv == "Reader" && (f.Name() == "Discard" || f.Name() == "Read") && idx == 0:
 		return ival{bi(0), maxInt}, true
+	case pkg == "strconv" && (f.Name() == "ParseInt" || f.Name() == "ParseUint") && idx == 0 && len(c.Call.Args) == 3 && sliceWidth(c.Call.Args[0]) > 0 && isConstInt(c.Call.Args[1], 10):
+		// a decimal number spelled with n characters is below 10^n in magnitude
+		w := new(big.Int).Exp(bi(10), bi(int64(sliceWidth(c.Call.Args[0]))), nil)
+		w.Sub(w, bi(1))
+		if f.Name() == "ParseUint" {
+			return ival{bi(0), w}, true
+		}
+		return ival{new(big.Int).Neg(w), w}, true
 	case pkg == "strconv" && (f.Name() == "ParseInt" || f.Name() == "ParseUint") && idx == 0 && len(c.Call.Args) == 3:
 		if bs, ok := ssau.ConstInt(c.Call.Args[2]); ok {
 			if bs == 0 {
@@ -556,6 +655,58 @@ func (e *intervalEnv) moduleRetRange(c *ssa.Call, idx int, seen map[ssa.Value]bo
 	}
 	retRangeCache[f][idx] = acc
 	return *acc, true
+}
+
+// moduleRetRangeCond is moduleRetRange restricted, when the call also returns
+// a bool (the comma-ok shape) that the facts at the point of use know to be
+// true, to the callee's returns whose bool result is not the constant false.
+func (e *intervalEnv) moduleRetRangeCond(c *ssa.Call, idx int, facts ssau.FactSet) (ival, bool) {
+	f := c.Call.StaticCallee()
+	if f != nil && e.p != nil && e.p.InModule(f) && len(f.Blocks) > 0 && facts != nil {
+		res := f.Signature.Results()
+		for j := 0; j < res.Len(); j++ {
+			if j == idx || basicKind(res.At(j).Type()) != types.Bool {
+				continue
+			}
+			okPath := ssau.Path(c) + sprintf("#%d", j)
+			want := ""
+			switch {
+			case facts.Has("true", okPath, ""):
+				want = "true"
+			case facts.Has("false", okPath, ""):
+				want = "false"
+			default:
+				continue
+			}
+			if _, okT := typeRange(res.At(idx).Type()); !okT || e.callDepth > 8 {
+				break
+			}
+			ce := newIntervalEnv(e.p, f)
+			ce.callDepth = e.callDepth + 1
+			var acc *ival
+			for _, ret := range returns(f) {
+				if k, isConst := ret.Results[j].(*ssa.Const); isConst && k.Value != nil && k.Value.ExactString() != want {
+					continue // this return reports the other outcome
+				}
+				rr, ok := ce.rangeOf(ret.Results[idx], ce.ff.At(ret), map[ssa.Value]bool{}, 0)
+				if !ok {
+					acc = nil
+					break
+				}
+				if acc == nil {
+					c := rr
+					acc = &c
+				} else {
+					jn := acc.join(rr)
+					acc = &jn
+				}
+			}
+			if acc != nil {
+				return *acc, true
+			}
+		}
+	}
+	return e.moduleRetRange(c, idx, nil, 0)
 }
 
 // reflectRange bounds reflect.Value.Uint()/Int() by the reflect.Kind cases
@@ -636,4 +787,31 @@ func reflectKindName(n int64) string {
 		return names[n]
 	}
 	return ""
+}
+
+// sliceWidth returns n when v is s[a:b] with constant bounds, b-a = n (0 otherwise).
+func sliceWidth(v ssa.Value) int {
+	sl, ok := v.(*ssa.Slice)
+	if !ok || sl.High == nil {
+		return 0
+	}
+	hi, ok := ssau.ConstInt(sl.High)
+	if !ok {
+		return 0
+	}
+	lo := int64(0)
+	if sl.Low != nil {
+		if lo, ok = ssau.ConstInt(sl.Low); !ok {
+			return 0
+		}
+	}
+	if hi-lo <= 0 || hi-lo > 18 {
+		return 0
+	}
+	return int(hi - lo)
+}
+
+func isConstInt(v ssa.Value, k int64) bool {
+	c, ok := ssau.ConstInt(v)
+	return ok && c == k
 }
